@@ -22,8 +22,9 @@ func init() {
 // ---- abstract syntax (names as character arrays for the spec)
 
 type XEntry struct {
-	Name B `json:"name"`
-	Text B `json:"text"`
+	Name B      `json:"name"`
+	Text B      `json:"text"`
+	V    uint64 `json:"-"` // the value Text denotes (grammar bookkeeping only)
 }
 type XEnum struct {
 	Name    B        `json:"name"`
@@ -159,6 +160,9 @@ func (g *gram) enum() XEnum {
 				if g.r.Intn(8) == 0 {
 					bit = 40 + g.r.Intn(24)
 				}
+				if bit == 62 {
+					continue // reserved for the entry added by an including file (values stay unique within an enum)
+				}
 				v = 1 << uint(bit)
 			} else {
 				switch g.r.Intn(4) {
@@ -181,7 +185,7 @@ func (g *gram) enum() XEnum {
 		if v&(v-1) != 0 || v == 0 {
 			bit = -1
 		}
-		e.Entries = append(e.Entries, XEntry{Name: B(g.upperName(name + "_")), Text: B(g.literal(v, bit))})
+		e.Entries = append(e.Entries, XEntry{Name: B(g.upperName(name + "_")), Text: B(g.literal(v, bit)), V: v})
 	}
 	return e
 }
@@ -249,6 +253,10 @@ func (g *gram) message(enums []XEnum) XMsg {
 func genDoc(r *rand.Rand, idx int) XDoc {
 	g := &gram{r: r, names: map[string]bool{}, ids: map[int]bool{}}
 	nfiles := 1 + r.Intn(4)
+	collide := idx%3 == 0 // every third document has two include files with colliding names
+	if collide && nfiles < 3 {
+		nfiles = 3
+	}
 	doc := XDoc{Main: 1}
 	for f := 0; f < nfiles; f++ {
 		xf := XFile{Fname: fmt.Sprintf("f%d_%d.xml", idx, f), Version: B{}, Includes: []int{}, Enums: []XEnum{}, Messages: []XMsg{}}
@@ -259,6 +267,25 @@ func genDoc(r *rand.Rand, idx int) XDoc {
 			xf.Version = B(fmt.Sprintf("%d", r.Intn(250)))
 		}
 		doc.Files = append(doc.Files, xf)
+	}
+	// include files whose names differ only by directory, underscore or letter case (paths are relative to the
+	// directory the generator runs in): distinct definitions all the same
+	if collide {
+		a := 1 + r.Intn(nfiles-1)
+		b := 1 + (a+r.Intn(nfiles-2))%(nfiles-1)
+		if a != b {
+			switch (idx / 3) % 3 {
+			case 0:
+				doc.Files[a].Fname = fmt.Sprintf("airframe%d/status.xml", idx)
+				doc.Files[b].Fname = fmt.Sprintf("payload%d/status.xml", idx)
+			case 1:
+				doc.Files[a].Fname = fmt.Sprintf("air_frame%d.xml", idx)
+				doc.Files[b].Fname = fmt.Sprintf("airframe%d.xml", idx)
+			default:
+				doc.Files[a].Fname = fmt.Sprintf("sub%d/Vendor.xml", idx)
+				doc.Files[b].Fname = fmt.Sprintf("sub%d/vendor.xml", idx)
+			}
+		}
 	}
 	// include DAG: file i may include files with a larger index (diamonds arise naturally)
 	for f := 0; f < nfiles; f++ {
@@ -300,7 +327,24 @@ func genDoc(r *rand.Rand, idx int) XDoc {
 		if f < nfiles-1 && len(all) > 0 && r.Intn(3) == 0 {
 			base := all[r.Intn(len(all))]
 			ext := XEnum{Name: base.Name, Bitmask: base.Bitmask}
-			ext.Entries = []XEntry{{Name: B(g.upperName(string(base.Name) + "_X")), Text: B(fmt.Sprintf("%d", 1<<20+r.Intn(1000)*2+1))}}
+			extVal := uint64(1<<20 + r.Intn(1000)*2 + 1)
+			ext.Entries = []XEntry{{Name: B(g.upperName(string(base.Name) + "_X")), Text: B(fmt.Sprintf("%d", extVal)), V: extVal}}
+			if !base.Bitmask {
+				// MAVLink does not allow two entries of one enum to have the same value
+				clash := false
+				for _, fl := range doc.Files {
+					for _, e2 := range fl.Enums {
+						if string(e2.Name) == string(base.Name) {
+							for _, en := range e2.Entries {
+								clash = clash || en.V == extVal
+							}
+						}
+					}
+				}
+				if clash {
+					continue
+				}
+			}
 			if base.Bitmask {
 				ext.Entries[0].Text = B("2**62")
 				// only one extension per bitmask enum keeps values unique
@@ -410,6 +454,7 @@ func cmdC18Gen(o opts) {
 			dir := filepath.Join(work, fmt.Sprintf("d%d", i), []string{"a", "b"}[run])
 			os.MkdirAll(dir, 0o755)
 			for _, f := range doc.Files {
+				os.MkdirAll(filepath.Dir(filepath.Join(dir, f.Fname)), 0o755)
 				os.WriteFile(filepath.Join(dir, f.Fname), []byte(doc.xml(f)), 0o644)
 			}
 			cwd, _ := os.Getwd()
